@@ -148,16 +148,13 @@ def tokenize(text):
                 raise Unspec("trailing backslash")
             if cur is not None:
                 raise Unspec("escape in the middle of a token")
-            cur = [text[i + 1]]
-            esc_in = True
-            i += 2
-            # an escaped character followed directly by more symbol characters
-            while i < n and text[i] != " " and text[i] not in SPECIAL_1 and text[i] != "\\":
-                cur.append(text[i])
-                i += 1
-            if len(cur) > 1:
+            if text[i + 1] == " " or text[i + 1] == "\\":
+                raise Unspec("escaped blank / backslash")
+            nxt = text[i + 2] if i + 2 < n else " "
+            if nxt != " " and nxt not in SPECIAL_1:
                 raise Unspec("escape glued to other characters")
-            flush()
+            toks.append(("sym", text[i + 1], True))
+            i += 2
             continue
         if c == " ":
             flush()
@@ -179,6 +176,14 @@ def parse(text):
     toks = tokenize(text)
     if not toks:
         raise Unspec("empty text")
+    # constructs the documentation does not settle make the whole text UNSPEC, wherever they occur
+    BIN = (("op", "|"), ("op", "+"), ("op", "."))
+    for i, t in enumerate(toks):
+        nxt = toks[i + 1] if i + 1 < len(toks) else None
+        if t == ("op", "(") and nxt == ("op", ")"):
+            raise Unspec("empty group")
+        if t in BIN and (nxt is None or nxt == ("op", ")") or nxt in BIN or nxt == ("op", "*")):
+            raise Unspec("binary operator without right operand / consecutive operators")
     pos = [0]
 
     def peek():
